@@ -436,7 +436,7 @@ func (env *Env) fieldOf(base SV, name string) SV {
 	}
 	for i := 0; i < st.NumFields(); i++ {
 		f := st.Field(i)
-		if f.Name() == name {
+		if fieldIs(bt, f, name) {
 			var r SV
 			if isPtr {
 				k := regHeap(fieldKey(bt, i), heapSortField(bt, i))
